@@ -518,6 +518,9 @@ func (e *endpoint) sendOp(o *Op) bool {
 			firstMax -= 4
 		}
 		frags := cutBlock(block, o.NCont, o.CutSeed, o.EmptyOK, firstMax, 16384)
+		if o.EmptyFirst {
+			frags = [][]byte{{}, block}
+		}
 		it := &item{kind: 'H', fields: o.Fields, prio: o.Prio, nCont: len(frags) - 1, padded: o.Pad > 0, endWith: o.End}
 		if o.K == OpPush {
 			it.kind, it.promised = 'U', o.Promised
